@@ -44,9 +44,10 @@ theorem erase_id {es : List (String × Json)} {tg : String} (h : ∀ kv ∈ es, 
   simp [h kv hkv]
 
 theorem seStruct_keys {σ : Space} {f : Nat} {ps : List Field} {fs : List (String × Val)}
-    {es : List (String × Json)} (h : seStruct σ f ps fs = .ok es) : ∀ kv ∈ es, ∃ p ∈ ps, p.wire = kv.1 := by
+    {es : List (String × Json)} (hfl : hasFlatten ps = false) (h : seStruct σ f ps fs = .ok es) :
+    ∀ kv ∈ es, ∃ p ∈ ps, p.wire = kv.1 := by
   cases f with
   | zero => simp [seStruct] at h
-  | succ f' => simp only [seStruct] at h; exact seFieldsR_keys σ h
+  | succ f' => simp only [seStruct] at h; exact seFieldsR_keys σ hfl h
 
 end TypifyModel.RoundTrip
